@@ -9,10 +9,10 @@ import (
 
 // G is one goroutine of a stop-the-world snapshot.
 type G struct {
-	ID     int64
-	State  string   // e.g. "running", "runnable", "chan receive", "select", "sync.Mutex.Lock", "sync.Cond.Wait", "semacquire", "IO wait", "sleep"
-	Frames []string // function names, innermost first
-	Creator int64   // id of the goroutine that created this one (0 if unknown)
+	ID      int64
+	State   string   // e.g. "running", "runnable", "chan receive", "select", "sync.Mutex.Lock", "sync.Cond.Wait", "semacquire", "IO wait", "sleep"
+	Frames  []string // function names, innermost first
+	Creator int64    // id of the goroutine that created this one (0 if unknown)
 }
 
 // Blocked reports whether the goroutine is parked on a synchronisation primitive
